@@ -194,7 +194,7 @@ impl WriteSource for pr::ExprKind {
                 for (name, arg) in named_args {
                     r += opt.consume(" ")?;
 
-                    r += opt.consume(name)?;
+                    r += opt.consume(&write_ident_part(name))?;
 
                     r += opt.consume(":")?;
 
